@@ -101,7 +101,7 @@ def match_known(known, v):
             if v.inputs is None:
                 continue
             try:
-                if not eval(w, {'__builtins__': __builtins__}, dict(v.inputs)):
+                if not eval(w, {'__builtins__': __builtins__}, dict(v.inputs, inputs=dict(v.inputs))):
                     continue
             except Exception:
                 continue
